@@ -115,7 +115,7 @@ def tlc_mc(module, cfg, workers=8, timeout=3600, tag=None):
         res["generated"], res["distinct"], res["left"] = map(int, m.groups())
     else:
         res["generated"] = res["distinct"] = 0
-    viol = re.search(r"Error: (Invariant (\S+) is violated|Temporal properties were violated|"
+    viol = re.search(r"Error: (Invariant (\S+) is violated|Temporal propert(?:y|ies) [^\n]*w(?:as|ere) violated|"
                      r"Action property (\S+) is violated|Deadlock reached)[^\n]*", out)
     res["violation"] = viol.group(0) if viol else None
     other_err = None
@@ -417,7 +417,7 @@ def spec_mutant(chk, name, module, cfg, edits, workers=8, timeout=900):
     cmd = ["tlc", "-workers", str(workers), "-metadir", meta, "-cleanup", "-noGenerateSpecTE",
            "-config", os.path.join(d, cfg), os.path.join(d, module)]
     rc, out = sh(cmd, timeout=timeout, cwd=d)
-    refuted = bool(re.search(r"is violated|properties were violated|Assumption .* is false", out))
+    refuted = bool(re.search(r"is violated|w(?:as|ere) violated|Assumption .* is false", out))
     shutil.rmtree(d, ignore_errors=True)
     chk.parts.setdefault("spec_mutants", []).append({"mutant": name, "cfg": cfg, "refuted": refuted})
     if not refuted:
